@@ -8,6 +8,7 @@ package main
 import (
 	"fmt"
 	"sort"
+	"strconv"
 
 	"verif/c10/lib"
 )
@@ -704,11 +705,26 @@ func (g *gen) attributes() {
 			if r.Chance(1, 2) {
 				continue
 			}
-			d.Attrs = append(d.Attrs, GAttr{Kind: 2, Type: 0, Name: w.name, MinI: 0, MaxI: w.max})
+			// declared INT (the usual case), HEX, or - rarely, the importer refuses the value then - FLOAT
+			wa := GAttr{Kind: 2, Type: 0, Name: w.name, MinI: 0, MaxI: w.max}
+			switch r.Below(8) {
+			case 0, 1, 2:
+				wa.Type = 4
+			case 3:
+				wa.Type = 1
+				wa.MinF, wa.MaxF = 0, float64(w.max)
+			}
+			g.tag("wellknown-msg-time-declared-" + attrTypeNames[wa.Type])
+			d.Attrs = append(d.Attrs, wa)
 			d.AttrDefs = append(d.AttrDefs, GAttrDef{w.name, GNum{Form: 0, I: 0}})
 			for _, t := range targets[2] {
 				if r.Chance(1, 2) {
-					d.AttrVals = append(d.AttrVals, GAttrVal{Kind: 2, Name: w.name, Msg: t.msg, V: GNum{Form: 0, I: int64(r.Below(int(w.max) + 1))}})
+					v := GNum{Form: 0, I: int64(r.Below(int(w.max) + 1))}
+					if r.Chance(1, 12) { // written as a decimal: not an integer value any more
+						v = GNum{Form: 1, F: float64(v.I) + 0.5}
+						g.tag("wellknown-msg-time-as-decimal")
+					}
+					d.AttrVals = append(d.AttrVals, GAttrVal{Kind: 2, Name: w.name, Msg: t.msg, V: v})
 					g.tag("wellknown-msg-time")
 				}
 			}
@@ -732,15 +748,45 @@ func (g *gen) attributes() {
 	}
 	if len(targets[3]) > 0 && r.Chance(1, 2) {
 		if r.Chance(1, 2) {
-			d.Attrs = append(d.Attrs, GAttr{Kind: 3, Type: 1, Name: "GenSigStartValue", MinF: 0, MaxF: 10000})
-			d.AttrDefs = append(d.AttrDefs, GAttrDef{"GenSigStartValue", g.numFor(1, 0, 0)})
+			// declared FLOAT, INT or HEX (real files use all three), rarely ENUM or STRING; the value is
+			// written as an integer or as a decimal whatever the declaration says
+			sa := GAttr{Kind: 3, Type: 1, Name: "GenSigStartValue", MinF: 0, MaxF: 10000}
+			sdef := g.numFor(1, 0, 0)
+			switch r.Below(10) {
+			case 0, 1, 2:
+				sa.Type, sa.MinI, sa.MaxI, sdef = 0, 0, 10000, GNum{Form: 0, I: 0}
+			case 3, 4, 5:
+				sa.Type, sa.MinI, sa.MaxI, sdef = 4, 0, 10000, GNum{Form: 0, I: 0}
+			case 6:
+				sa.Type, sa.Enum, sdef = 3, []string{"Zero", "One", "Two"}, GNum{Form: 2, S: "Zero"}
+			case 7:
+				sa.Type, sdef = 2, GNum{Form: 2, S: "0"}
+			}
+			g.tag("wellknown-sig-startvalue-declared-" + attrTypeNames[sa.Type])
+			d.Attrs = append(d.Attrs, sa)
+			d.AttrDefs = append(d.AttrDefs, GAttrDef{"GenSigStartValue", sdef})
 			for _, t := range targets[3] {
 				if r.Chance(1, 3) {
-					v := float64(r.Below(1000))
-					if r.Chance(1, 2) {
-						v += 0.5
+					var v GNum
+					switch sa.Type {
+					case 1:
+						f := float64(r.Below(1000))
+						if r.Chance(1, 2) {
+							f += 0.5
+						}
+						v = g.numFor(1, 0, f)
+					case 0, 4:
+						v = GNum{Form: 0, I: int64(1 + r.Below(1000))}
+						if r.Chance(1, 4) {
+							v = GNum{Form: 1, F: float64(v.I) + 0.5}
+							g.tag("wellknown-sig-startvalue-decimal-for-integer-declaration")
+						}
+					case 3:
+						v = GNum{Form: 0, I: int64(r.Below(3))}
+					default:
+						v = GNum{Form: 2, S: strconv.Itoa(r.Below(1000))}
 					}
-					d.AttrVals = append(d.AttrVals, GAttrVal{Kind: 3, Name: "GenSigStartValue", Msg: t.msg, Sig: t.sig, V: g.numFor(1, 0, v)})
+					d.AttrVals = append(d.AttrVals, GAttrVal{Kind: 3, Name: "GenSigStartValue", Msg: t.msg, Sig: t.sig, V: v})
 					g.tag("wellknown-sig-startvalue")
 				}
 			}
